@@ -100,7 +100,12 @@ def is_path_ignored(
                 return True
         if not include_meson_subprojects:
             for pattern in _IGNORE_MESON_PARENT_DIR_PATTERNS:
-                if pattern.match(parent_dir):
+                # The root of the project may itself be called 'subprojects';
+                # that does not make its subdirectories Meson subprojects.
+                if pattern.match(parent_dir) and not (
+                    vcs_strategy
+                    and path.parent.resolve() == vcs_strategy.root.resolve()
+                ):
                     _LOGGER.info(
                         "ignoring '%s' because it is a Meson subproject", path
                     )
